@@ -555,3 +555,78 @@ Proof.
   - intros t. vm_compute. destruct t as [|[|t]]; reflexivity.
   - vm_compute. reflexivity.
 Qed.
+
+(* ---------- a Range that runs without interference reports exactly the map ------------------------------ *)
+
+Lemma get_in_keys : forall m k, get m k <> None -> In k (keys_of m).
+Proof.
+  induction m as [|[k' v] m IH]; intros k H; [cbn in H; congruence|].
+  cbn [get] in H. cbn [keys_of map fst]. destruct (Nat.eqb k k') eqn:E.
+  - left. apply Nat.eqb_eq in E. congruence.
+  - right. apply IH. exact H.
+Qed.
+
+Definition range_inv (m : smap) (th : thread) : Prop :=
+  match tstate th with
+  | TInv ORange => True
+  | TRng must seen acc =>
+      (forall k, get acc k = if existsb (Nat.eqb k) seen then get m k else None)
+      /\ (forall k, get m k <> None -> In k seen \/ In k must)
+  | TRes ORange (RList acc) => forall k, get acc k = get m k
+  | _ => False
+  end.
+
+Definition not_res (e : sev) : Prop := match e with ERes _ _ => False | _ => True end.
+
+Lemma range_step : forall rep ch m th m' th' e,
+  range_inv m th -> tstep rep ch m th = Some (m', th', e) -> not_res e -> m' = m /\ range_inv m th'.
+Proof.
+  intros rep ch m [st ops] m' th' e Hinv Hs Hnr. unfold range_inv in Hinv. cbn [tstate] in Hinv.
+  unfold tstep in Hs. cbn [tstate tops] in Hs.
+  destruct st as [|o|k v|must seen acc|o r]; try contradiction.
+  - destruct o; try contradiction. inversion Hs; subst. split; [reflexivity|]. unfold range_inv. cbn [tstate].
+    split; [intros k; reflexivity|]. intros k Hk. right. apply get_in_keys. exact Hk.
+  - destruct Hinv as [HI HII]. destruct ch as [k0|].
+    + destruct (existsb (Nat.eqb k0) seen) eqn:Es; [discriminate|]. inversion Hs; subst. split; [reflexivity|].
+      unfold range_inv. cbn [tstate]. split.
+      * intros k. cbn [existsb]. destruct (Nat.eqb k k0) eqn:Ek.
+        -- apply Nat.eqb_eq in Ek. subst k. cbn [orb]. destruct (get m' k0) as [v|] eqn:Eg.
+           ++ apply get_put_same.
+           ++ rewrite HI, Es. reflexivity.
+        -- cbn [orb]. apply Nat.eqb_neq in Ek. destruct (get m' k0) as [v|] eqn:Eg.
+           ++ rewrite get_put_other by assumption. apply HI.
+           ++ apply HI.
+      * intros k Hk. destruct (Nat.eq_dec k k0) as [->|Hne]; [left; left; reflexivity|].
+        destruct (HII k Hk) as [H|H]; [left; right; assumption|right].
+        apply filter_In. split; [assumption|]. apply negb_true_iff. apply Nat.eqb_neq. assumption.
+    + destruct must; [|discriminate]. inversion Hs; subst. split; [reflexivity|]. unfold range_inv. cbn [tstate].
+      intros k. rewrite HI. destruct (existsb (Nat.eqb k) seen) eqn:Es; [reflexivity|].
+      destruct (get m' k) eqn:Eg; [|reflexivity]. exfalso.
+      destruct (HII k) as [H|[]]; [congruence|].
+      assert (existsb (Nat.eqb k) seen = true); [|congruence].
+      apply existsb_exists. exists k. split; [assumption|apply Nat.eqb_refl].
+  - destruct o; try contradiction. destruct r; try contradiction. inversion Hs; subst. cbn in Hnr. contradiction.
+Qed.
+
+Theorem range_alone : forall rep sched c c' tr t,
+  (forall x, In x sched -> fst x = t) -> range_inv (sm c) (sthr c t) ->
+  srun rep c sched = Some (c', tr) -> (forall e, In e tr -> not_res (snd e)) ->
+  sm c' = sm c /\ range_inv (sm c) (sthr c' t).
+Proof.
+  intros rep sched. induction sched as [|[u ch] s IH]; intros c c' tr t Ht Hinv Hrun Hnr.
+  - cbn in Hrun. inversion Hrun; subst. split; [reflexivity|assumption].
+  - cbn [srun] in Hrun. destruct (sstep rep c u ch) as [[c1 e]|] eqn:Hs; [|discriminate].
+    destruct (srun rep c1 s) as [[c2 tr2]|] eqn:Hr2; [|discriminate]. inversion Hrun; subst c2 tr.
+    assert (u = t) by (apply (Ht (u, ch)); left; reflexivity). subst u.
+    unfold sstep in Hs. destruct (tstep rep ch (sm c) (sthr c t)) as [[[m' th'] e']|] eqn:Hts; [|discriminate].
+    inversion Hs; subst c1 e'. clear Hs.
+    destruct (range_step _ _ _ _ _ _ _ Hinv Hts) as [Hm Hinv'].
+    { apply (Hnr (t, e)). left. reflexivity. }
+    subst m'.
+    destruct (IH (mkScfg (sm c) (supd (sthr c) t th')) c' tr2 t) as [H1 H2].
+    + intros x Hx. apply Ht. right. assumption.
+    + cbn [sm sthr]. rewrite supd_same. assumption.
+    + assumption.
+    + intros e0 He0. apply Hnr. right. assumption.
+    + cbn [sm] in *. split; assumption.
+Qed.
